@@ -48,6 +48,9 @@ type coSched struct {
 	threads    []*coThread
 	cur        int
 	coarseOnly bool
+	syncOnly   bool // scheduling points only at synchronisation operations (and thread ends)
+	syncPoints int  // synchronisation-operation points met
+	lastStmt   int  // id of the last instrumented statement executed
 	info       *pointTable
 	allDone    chan struct{}
 	preempts   []int  // point ids at which a preemption happened
@@ -112,15 +115,26 @@ func (s *coSched) point(id int) {
 	if s.abort != "" {
 		panic(coAbort{})
 	}
-	if id < 0 {
+	if id == -1 {
 		s.blocked()
 		return
 	}
+	if id == -2 {
+		// A synchronisation operation of the sync stand-in: always a scheduling
+		// point, at every granularity.
+		s.streak = 0
+		s.offer(id)
+		return
+	}
 	s.streak = 0
+	s.lastStmt = id
 	s.steps++
 	if s.steps > c19Horizon {
 		s.abort = fmt.Sprintf("no progress: more than %d statements executed without all threads ending", c19Horizon)
 		panic(coAbort{})
+	}
+	if s.syncOnly {
+		return
 	}
 	if s.coarseOnly {
 		// Coarse granularity: the first time a thread enters each function.
@@ -136,16 +150,29 @@ func (s *coSched) point(id int) {
 		}
 		t.seen[id] = true
 	}
+	s.offer(id)
+}
+
+// offer makes the current point a scheduling point.
+func (s *coSched) offer(id int) {
 	en := s.others()
 	if len(en) == 0 {
 		return
 	}
 	s.points++
+	if id == -2 {
+		s.syncPoints++
+	}
 	c := s.x.Choose(1 + len(en)) // 0: keep running; otherwise preempt (cost 1)
 	if c == 0 {
 		return
 	}
-	s.preempts = append(s.preempts, id)
+	if id == -2 {
+		// recorded as -(statement id)-10: "at a synchronisation operation after that statement"
+		s.preempts = append(s.preempts, -s.lastStmt-10)
+	} else {
+		s.preempts = append(s.preempts, id)
+	}
 	s.switchTo(en[c-1])
 }
 
@@ -236,31 +263,63 @@ func (s *coSched) run(fns []func()) {
 const (
 	c19DocA      = "*x* [a]\n\n[a]: /u\n"
 	c19DocB      = "> <B>\x00`c`&amp;\n"
-	c19DocC      = "1. &copy;\n<http://a.b>\n"
+	c19DocC      = "1. &copy;\n<http://a.b>\n\n<b>\n"
 	c19DocD      = "~~~x\nb\n~~~\n<div>\n"
 	c19SharedDoc = "- *a* <SCRIPT>b</SCRIPT>\n\n[l](/u \"t\") <Xmp>\n"
+)
+
+// Larger documents that between them reach every construct of the language;
+// explored at the cheap granularities only (first function entries, and
+// synchronisation operations if the code has any).
+const (
+	c19BigA = "# H *e* `c`\n\nSetext\n===\n\n> q **s** [l](/u \"t\") ![i](/s)\n> <B> &amp; &#35; \\*\n\n1. one\n2. two\n\n   para\n\n- a\n  - b\n\n```go x\ncode\n```\n\n    ind\n\n<div>\nraw\n</div>\n\n[r]: /ref 'T'\n\n[r] [x][r] [r][] <http://a.b> <a@b.c> a  \nb\\\nc\n\n***\n"
+	c19BigB = "- [ß][SS] *a _b_ **c***\x00\n\n[ss]: <u v> (t)\n\n~~~\n~~\n~~~\n\n> 1) x\n>\n>    y\n\n<!-- c -->\n\n<SCRIPT>a</SCRIPT> ``x ` y`` [a](<b c> 'd\ne')\n\n<a href=\"x\" title=\"yyyy\">\n"
 )
 
 type c19Op struct {
 	name string
 	// mk returns the thread body and a function giving its result afterwards.
 	mk func(sh *c19Shared) (body func(), result func() string)
+
+	big bool // only in the explorations for larger documents
 }
 
 type c19Shared struct {
 	blocks   []*cm.RootBlock
 	refs     cm.ReferenceMap
 	renderer *cm.HTMLRenderer // one value shared by all "RenderShared" threads
+
+	bigBlocks   []*cm.RootBlock
+	bigRefs     cm.ReferenceMap
+	bigRenderer *cm.HTMLRenderer
 }
 
-func newC19Shared() *c19Shared {
+func newC19Shared(big bool) *c19Shared {
 	blocks, refs := cm.Parse([]byte(c19SharedDoc))
-	return &c19Shared{blocks: blocks, refs: refs,
+	sh := &c19Shared{blocks: blocks, refs: refs,
 		renderer: &cm.HTMLRenderer{ReferenceMap: refs, SoftBreakBehavior: cm.SoftBreakHarden, FilterTag: cm.FilterTagGFM}}
+	if big {
+		sh.bigBlocks, sh.bigRefs = cm.Parse([]byte(c19BigA))
+		sh.bigRenderer = &cm.HTMLRenderer{ReferenceMap: sh.bigRefs, FilterTag: cm.FilterTagGFM}
+	}
+	return sh
+}
+
+func (sh *c19Shared) dump() string {
+	return tree.Dump(sh.blocks, sh.refs, tree.Full) + tree.Dump(sh.bigBlocks, sh.bigRefs, tree.Full)
+}
+
+func comboBig(combo []int) bool {
+	for _, oi := range combo {
+		if c19Ops[oi].big {
+			return true
+		}
+	}
+	return false
 }
 
 func parseOp(name, doc string) c19Op {
-	return c19Op{name, func(*c19Shared) (func(), func() string) {
+	return c19Op{name: name, mk: func(*c19Shared) (func(), func() string) {
 		var out string
 		return func() {
 				blocks, refs := cm.Parse([]byte(doc))
@@ -272,32 +331,43 @@ func parseOp(name, doc string) c19Op {
 	}}
 }
 
+func parseBigOp(name, doc string) c19Op {
+	op := parseOp(name, doc)
+	op.big = true
+	return op
+}
+
 var c19Ops = []c19Op{
 	parseOp("ParseA", c19DocA),
 	parseOp("ParseB", c19DocB),
 	parseOp("ParseC", c19DocC),
 	parseOp("ParseD", c19DocD),
-	{"RenderShared", func(sh *c19Shared) (func(), func() string) {
+	{name: "RenderShared", mk: func(sh *c19Shared) (func(), func() string) {
 		var out string
 		return func() { out, _ = renderHTML(sh.renderer, sh.blocks) }, func() string { return out }
 	}},
-	{"RenderOwn1", func(sh *c19Shared) (func(), func() string) {
+	{name: "RenderOwn1", mk: func(sh *c19Shared) (func(), func() string) {
 		var out string
 		return func() {
 			out, _ = renderHTML(&cm.HTMLRenderer{ReferenceMap: sh.refs, FilterTag: func(t []byte) bool { return string(t) == "xmp" }}, sh.blocks)
 		}, func() string { return out }
 	}},
-	{"RenderOwn2", func(sh *c19Shared) (func(), func() string) {
+	{name: "RenderOwn2", mk: func(sh *c19Shared) (func(), func() string) {
 		var out string
 		return func() {
 			out, _ = renderHTML(&cm.HTMLRenderer{ReferenceMap: sh.refs, IgnoreRaw: true, SoftBreakBehavior: cm.SoftBreakSpace}, sh.blocks)
 		}, func() string { return out }
 	}},
-	{"Format", func(sh *c19Shared) (func(), func() string) {
+	{name: "Format", mk: func(sh *c19Shared) (func(), func() string) {
 		var buf bytes.Buffer
 		return func() { format.Format(&buf, sh.blocks) }, func() string { return buf.String() }
 	}},
-	{"Walk", func(sh *c19Shared) (func(), func() string) {
+	{name: "FormatPlainWriter", mk: func(sh *c19Shared) (func(), func() string) {
+		// a writer without a WriteString method: Format goes through its adapter
+		var buf bytes.Buffer
+		return func() { format.Format(onlyWriter{&buf}, sh.blocks) }, func() string { return buf.String() }
+	}},
+	{name: "Walk", mk: func(sh *c19Shared) (func(), func() string) {
 		var sb strings.Builder
 		return func() {
 			for _, b := range sh.blocks {
@@ -311,6 +381,46 @@ var c19Ops = []c19Op{
 			}
 		}, func() string { return sb.String() }
 	}},
+}
+
+func init() {
+	c19Ops = append(c19Ops,
+		parseBigOp("ParseBigA", c19BigA),
+		parseBigOp("ParseBigB", c19BigB),
+		c19Op{big: true, name: "RenderBigShared", mk: func(sh *c19Shared) (func(), func() string) {
+			var out string
+			return func() { out, _ = renderHTML(sh.bigRenderer, sh.bigBlocks) }, func() string { return out }
+		}},
+		c19Op{big: true, name: "FormatBig", mk: func(sh *c19Shared) (func(), func() string) {
+			var buf bytes.Buffer
+			return func() { format.Format(&buf, sh.bigBlocks) }, func() string { return buf.String() }
+		}},
+		c19Op{big: true, name: "WalkBig", mk: func(sh *c19Shared) (func(), func() string) {
+			n := 0
+			return func() {
+				for _, b := range sh.bigBlocks {
+					cm.Walk(b.AsNode(), &cm.WalkOptions{Pre: func(*cm.Cursor) bool { n++; return true }, Post: func(*cm.Cursor) bool { n++; return true }})
+				}
+			}, func() string { return fmt.Sprint(n) }
+		}},
+	)
+}
+
+// c19CombosOf lists every multiset of n operations of the given class.
+func c19CombosOf(n int, big bool) [][]int {
+	var out [][]int
+	for _, c := range c19Combos(n) {
+		ok := true
+		for _, oi := range c {
+			if c19Ops[oi].big != big {
+				ok = false
+			}
+		}
+		if ok {
+			out = append(out, c)
+		}
+	}
+	return out
 }
 
 // c19Combos lists every multiset of n operations.
@@ -336,7 +446,7 @@ func c19SeqResult(op int) string {
 	if r, ok := c19Sequential[op]; ok {
 		return r
 	}
-	sh := newC19Shared()
+	sh := newC19Shared(c19Ops[op].big)
 	body, res := c19Ops[op].mk(sh)
 	body()
 	c19Sequential[op] = res()
@@ -346,7 +456,7 @@ func c19SeqResult(op int) string {
 func init() {
 	register(&Check{
 		ID:   "C19",
-		Rule: "part 1: for every multiset of 2 (thorough: also 3) operations from {Parse(A), Parse(B), Parse(C), Parse(D), Render through one shared HTMLRenderer, Render through two own renderers, Format, Walk} on one shared pre-parsed tree, every schedule with at most p preemptions, where a scheduling point is every instrumented statement (fine) or the first entry of each thread into each function (coarse): bound 1 fine and bound 2 coarse (quick), bound 2 fine for pairs, bound 3 coarse, and triples at bound 1 fine / 2 coarse (thorough); non-trivial = the schedule contains at least one preemption; part 2: in a -race build, every operation pair as free-running goroutines released by a barrier, one fresh process per pair (so the first run meets every lazily built table or cache cold), repeated; and the 652 spec examples parsed/rendered/formatted/walked by 2 and by 8 goroutines at once and then each tree rendered (one shared renderer, twice), formatted and walked concurrently; any race report or result differing from the sequential one is a violation",
+		Rule: "part 1: for every multiset of 2 (thorough: also 3) operations from {Parse(A), Parse(B), Parse(C), Parse(D), Render through one shared HTMLRenderer, Render through two own renderers, Format into a writer with and into one without WriteString, Walk} on one shared pre-parsed tree (and, at the cheaper granularities, from {Parse of two larger documents that reach every construct, Render/Format/Walk of a larger shared tree}), every schedule with at most p preemptions, where a scheduling point is every instrumented statement (fine) or the first entry of each thread into each function (coarse): bound 1 fine and bound 2 coarse (quick), bound 2 fine for pairs, bound 3 coarse, and triples at bound 1 fine / 2 coarse (thorough); non-trivial = the schedule contains at least one preemption; part 2: in a -race build, every operation pair as free-running goroutines released by a barrier, one fresh process per pair (so the first run meets every lazily built table or cache cold), repeated; and the 652 spec examples parsed/rendered/formatted/walked by 2 and by 8 goroutines at once and then each tree rendered (one shared renderer, twice), formatted and walked concurrently; any race report or result differing from the sequential one is a violation",
 		Assumptions: []string{
 			"interleavings are decided at statement granularity; Go's memory model below that and paths the harness bodies do not execute are outside part 1",
 			"the data-race clause is decided by the race detector in a separate free-running pass (cooperative hand-offs are happens-before edges that would blind it); it is not an enumeration of schedules",
@@ -363,25 +473,49 @@ func c19Run(c *Ctx) {
 	}
 	info := loadPoints()
 	type cfg struct {
-		name   string
-		n      int
-		coarse bool
-		bound  int
+		name     string
+		n        int
+		big      bool
+		coarse   bool
+		syncOnly bool
+		bound    int
 	}
-	cfgs := []cfg{{"pairs-fine-p1", 2, false, 1}, {"pairs-coarse-p2", 2, true, 2}}
+	cfgs := []cfg{
+		{"pairs-fine-p1", 2, false, false, false, 1},
+		{"pairs-coarse-p2", 2, false, true, false, 2},
+		{"big-pairs-coarse-p1", 2, true, true, false, 1},
+		{"big-pairs-sync-p2", 2, true, false, true, 2},
+	}
 	if c.Thorough() {
-		cfgs = []cfg{{"pairs-fine-p2", 2, false, 2}, {"pairs-coarse-p3", 2, true, 3}, {"triples-fine-p1", 3, false, 1}, {"triples-coarse-p2", 3, true, 2}}
+		cfgs = []cfg{
+			{"pairs-fine-p2", 2, false, false, false, 2},
+			{"pairs-coarse-p3", 2, false, true, false, 3},
+			{"triples-fine-p1", 3, false, false, false, 1},
+			{"triples-coarse-p2", 3, false, true, false, 2},
+			{"big-pairs-coarse-p2", 2, true, true, false, 2},
+			{"big-triples-coarse-p1", 3, true, true, false, 1},
+			{"big-pairs-sync-p3", 2, true, false, true, 3},
+		}
 	}
 	for _, cf := range cfgs {
 		cf := cf
-		combos := c19Combos(cf.n)
+		combos := c19CombosOf(cf.n, cf.big)
 		gran := "every instrumented statement"
 		if cf.coarse {
 			gran = "the first time each thread enters each function or function literal"
 		}
-		c.Explore(cf.name, fmt.Sprintf("%d operation multisets of size %d x all schedules with <=%d preemptions; scheduling points: %s", len(combos), cf.n, cf.bound, gran), cf.bound, 0, func(x *X) {
+		if cf.syncOnly {
+			gran = "synchronisation operations only (none in the unchanged library: then one execution per multiset and thread order)"
+		} else {
+			gran += ", and every synchronisation operation"
+		}
+		class := "operations on the small harness documents"
+		if cf.big {
+			class = "operations on the two larger documents that reach every construct"
+		}
+		c.Explore(cf.name, fmt.Sprintf("%d multisets of %d %s x all schedules with <=%d preemptions; scheduling points: %s", len(combos), cf.n, class, cf.bound, gran), cf.bound, 0, func(x *X) {
 			combo := combos[x.ChooseFree(len(combos))]
-			c19Driver(x, info, combo, cf.coarse)
+			c19Driver(x, info, combo, cf.coarse, cf.syncOnly)
 		})
 	}
 }
@@ -392,13 +526,13 @@ func c19Run(c *Ctx) {
 // worker reports the same failure instead of running.
 var c19Poisoned *fail
 
-func c19Driver(x *X, info *pointTable, combo []int, coarse bool) {
+func c19Driver(x *X, info *pointTable, combo []int, coarse, syncOnly bool) {
 	if c19Poisoned != nil {
 		x.fails = append(x.fails, *c19Poisoned)
 		return
 	}
-	sh := newC19Shared()
-	before := tree.Dump(sh.blocks, sh.refs, tree.Full)
+	sh := newC19Shared(comboBig(combo))
+	before := sh.dump()
 	var names []string
 	var fns []func()
 	var results []func() string
@@ -409,7 +543,7 @@ func c19Driver(x *X, info *pointTable, combo []int, coarse bool) {
 		names = append(names, c19Ops[oi].name)
 	}
 	cfg := strings.Join(names, "||")
-	s := &coSched{x: x, coarseOnly: coarse, info: info}
+	s := &coSched{x: x, coarseOnly: coarse, syncOnly: syncOnly, info: info}
 	s.run(fns)
 	x.Validated()
 	in := []byte(cfg)
@@ -441,14 +575,14 @@ func c19Driver(x *X, info *pointTable, combo []int, coarse bool) {
 			return
 		}
 	}
-	if after := tree.Dump(sh.blocks, sh.refs, tree.Full); after != before {
+	if after := sh.dump(); after != before {
 		x.Fail("shared-tree-modified", cfg, in, "shared tree changed; %s", sched)
 		return
 	}
 	if len(s.preempts) > 0 {
 		x.Nontrivial()
 		for _, id := range s.preempts {
-			if id < len(info.pts) {
+			if id >= 0 && id < len(info.pts) {
 				switch fn := info.pts[id].Func; {
 				case strings.Contains(fn, "filterRaw"), strings.Contains(fn, "maybeLower"), strings.Contains(fn, "Render"), strings.Contains(fn, "processEmphasis"), strings.Contains(fn, "parse"), strings.Contains(fn, "formatWriter"), strings.Contains(fn, "Walk"):
 					x.Count("preemptions_in_" + fn)
@@ -457,6 +591,7 @@ func c19Driver(x *X, info *pointTable, combo []int, coarse bool) {
 		}
 	}
 	x.Max("scheduling_points_per_execution", int64(s.points))
+	x.Max("synchronisation_operation_points_per_execution", int64(s.syncPoints))
 	// Outcomes: the vector of results (all equal on a correct tree - that is the property).
 	h := uint64(0)
 	for i := range combo {
@@ -472,7 +607,10 @@ func describePoints(info *pointTable, ids []int) string {
 	}
 	var parts []string
 	for _, id := range ids {
-		if id < len(info.pts) {
+		if id <= -10 && -id-10 < len(info.pts) {
+			p := info.pts[-id-10]
+			parts = append(parts, fmt.Sprintf("sync operation after %s:%d(%s)", p.File, p.Line, p.Func))
+		} else if id >= 0 && id < len(info.pts) {
 			p := info.pts[id]
 			parts = append(parts, fmt.Sprintf("%s:%d(%s)", p.File, p.Line, p.Func))
 		} else {
@@ -494,7 +632,7 @@ func RacePair(a, b, reps int) (runs int, mismatch string) {
 	combo := []int{a, b}
 	var got [][]string
 	for r := 0; r < reps; r++ {
-		sh := newC19Shared()
+		sh := newC19Shared(comboBig(combo))
 		var wg sync.WaitGroup
 		start := make(chan struct{})
 		results := make([]func() string, len(combo))
@@ -545,12 +683,13 @@ func RaceCorpus(g int) (docs int, mismatch string) {
 	one := func(md string) res {
 		blocks, refs := cm.Parse([]byte(md))
 		h, _ := renderHTML(&cm.HTMLRenderer{ReferenceMap: refs, FilterTag: cm.FilterTagGFM}, blocks)
-		var fb bytes.Buffer
+		var fb, fp bytes.Buffer
 		format.Format(&fb, blocks)
+		format.Format(onlyWriter{&fp}, blocks) // writer without WriteString
 		for _, b := range blocks {
 			cm.Walk(b.AsNode(), &cm.WalkOptions{Pre: func(*cm.Cursor) bool { return true }})
 		}
-		return res{blocks, refs, h, fb.String()}
+		return res{blocks, refs, h, fb.String() + "\x00" + fp.String()}
 	}
 	var wg sync.WaitGroup
 	start := make(chan struct{})
@@ -584,7 +723,12 @@ func RaceCorpus(g int) (docs int, mismatch string) {
 		}
 		run(func() { out[0], _ = renderHTML(r, all[i].blocks) })
 		run(func() { out[1], _ = renderHTML(r, all[i].blocks) })
-		run(func() { var fb bytes.Buffer; format.Format(&fb, all[i].blocks); fm = fb.String() })
+		run(func() {
+			var fb, fp bytes.Buffer
+			format.Format(&fb, all[i].blocks)
+			format.Format(onlyWriter{&fp}, all[i].blocks)
+			fm = fb.String() + "\x00" + fp.String()
+		})
 		run(func() {
 			for _, b := range all[i].blocks {
 				cm.Walk(b.AsNode(), &cm.WalkOptions{Post: func(*cm.Cursor) bool { return true }})
@@ -625,8 +769,10 @@ func c19RacePass(verifDir, tier string) (map[string]any, []Violation, error) {
 		timedOut bool
 	}
 	var jobs []*job
-	for _, combo := range c19Combos(2) {
-		jobs = append(jobs, &job{args: []string{"racepair", fmt.Sprint(combo[0]), fmt.Sprint(combo[1]), reps}})
+	for _, big := range []bool{false, true} {
+		for _, combo := range c19CombosOf(2, big) {
+			jobs = append(jobs, &job{args: []string{"racepair", fmt.Sprint(combo[0]), fmt.Sprint(combo[1]), reps}})
+		}
 	}
 	for _, g := range []string{"2", "8"} {
 		jobs = append(jobs, &job{args: []string{"racecorpus", g}})
